@@ -265,7 +265,13 @@ def collect_scenario():
   def scenario(ip):
     s = Scen()
     sch, _ = mk_sched(ip, s)
-    knob = [Obj(ExtClass("Q"), {"qnoise_factor": 1.0}, label="k%d" % i) for i in range(4)]
+    # the knob's current value must not matter: 0.0 (pre-training / left over from an earlier run) and an
+    # arbitrary factor in [0, 1] are collected exactly like the default 1.0 (seed c07-3 tested truthiness)
+    f = z3.Real("f")
+    s.vars["f"] = f
+    ip.assume(z3.And(f >= 0, f <= 1))
+    knob = [Obj(ExtClass("Q"), {"qnoise_factor": v}, label="k%d" % i)
+            for i, v in enumerate([1.0, 0.0, SNum(f, "float"), 0.25])]
     plain = [Obj(ExtClass("Q"), {}, label="p%d" % i) for i in range(2)]
     L = ExtClass("Layer")
     layers = [Obj(L, {"quantizers": [knob[0], plain[0], None, knob[1]]}, label="l0"),
@@ -280,6 +286,8 @@ def collect_scenario():
     s.claim("collect", ok)
     # on_train_begin applies the initial factor 0.0 and the scheduler's use_ste to every collected quantizer
     qs = [_stub_quantizer("q0"), _stub_quantizer("q1"), _stub_quantizer("q2")]
+    qs[1].attrs["qnoise_factor"] = 0.0
+    qs[2].attrs["qnoise_factor"] = SNum(f, "float")
     model2 = Obj(ExtClass("Model"), {"layers": [Obj(L, {"quantizers": qs[:2]}), Obj(L, {"quantizer": qs[2]})]})
     ip.setattr(sch, "model", model2)
     r2 = run_call(ip, ip.getattr(sch, "on_train_begin"), [])
@@ -322,6 +330,6 @@ def cases(tier):
     for hook in ("on_epoch_begin", "on_train_batch_begin"):
       out.append(Case(PROP, CB + "update_qnoise_factor", "%s_%s" % (ft, hook), step_scenario(ft, hook), bounds=bounds,
                       replay_kind="c07_sched", assumptions=ASSUME))
-  out.append(Case(PROP, CB + "get_quantizers", "collect", collect_scenario(), bounds=bounds, replay_kind=None,
+  out.append(Case(PROP, CB + "get_quantizers", "collect", collect_scenario(), bounds=bounds, replay_kind="c07_collect",
                   assumptions=ASSUME))
   return out
